@@ -142,3 +142,54 @@ Definition check_ecase (c : ecase) : bool :=
     match remove_item b p f i with Some (_, r) => tree_same r a | None => false end
   end
   && match c with TPlug b _ a | TInsert b _ _ _ a | TRemove b _ _ _ a => hwf_b all_classes b && hwf_b all_classes a end.
+
+(* Optional fields (TreeEdit.create_opt / remove_opt) against real `model.raw_x = value` / `model.raw_x = None`:
+   `before` and `after` are dumps of the same root with ONE Dumper, `p` the path to the model owning the optional
+   field `f`. The new child and the separator tokens between it and the pivot are read off `after`; the separator
+   texts must be the ones of the field declaration (FOptL / FOptR seps). *)
+Inductive ocase :=
+| TCreateOpt (before : node) (p : path) (f : string) (after : node)
+| TRemoveOpt (before : node) (p : path) (f : string) (after : node).
+
+Definition observed_create (after : node) (p : path) (f : string) : option (fkind * list tk * node) :=
+  match select after p with
+  | Some (Tree c s T kids d) =>
+    match kid kids f, opt_pivot all_classes (Tree c s T kids d) f with
+    | Some (SOpt (Some y)), Some (k, pv) =>
+      match k with
+      | FOptL _ =>          (* pivot, separators, child *)
+        match find_off pv T, node_toks y with
+        | Some a, x :: _ => match find_off x T with Some b => Some (k, slice T (S a) b, y) | None => None end
+        | _, _ => None
+        end
+      | FOptR _ =>          (* child, separators, pivot *)
+        match after_unit T (node_toks y), find_off pv T with
+        | Some a, Some b => Some (k, slice T a b, y)
+        | _, _ => None
+        end
+      | _ => None
+      end
+    | _, _ => None
+    end
+  | _ => None
+  end.
+
+Definition seps_match (k : fkind) (seps : list tk) : bool :=
+  match k with
+  | FOptL l | FOptR l => list_eqb String.eqb (map k_text seps) l
+  | _ => false
+  end.
+
+Definition check_ocase (c : ocase) : bool :=
+  match c with
+  | TCreateOpt b p f a =>
+    match observed_create a p f with
+    | Some (k, seps, y) =>
+      seps_match k seps
+      && match create_opt all_classes b p f seps y with Some r => tree_same r a | None => false end
+    | None => false
+    end
+  | TRemoveOpt b p f a =>
+    match remove_opt all_classes b p f with Some (_, r) => tree_same r a | None => false end
+  end
+  && match c with TCreateOpt b _ _ a | TRemoveOpt b _ _ a => hwf_b all_classes b && hwf_b all_classes a end.
